@@ -19,6 +19,7 @@ type HTTPNode struct {
 	*BaseNode
 	URL        *url.URL // stores url pointing actual remote file. (e.g. with Taskfile.yml)
 	entrypoint string   // stores entrypoint url. used for building graph vertices.
+	insecure   bool     // plain http is allowed (also as the target of a redirect)
 }
 
 func NewHTTPNode(
@@ -40,6 +41,7 @@ func NewHTTPNode(
 		BaseNode:   base,
 		URL:        url,
 		entrypoint: entrypoint,
+		insecure:   insecure,
 	}, nil
 }
 
@@ -52,7 +54,8 @@ func (node *HTTPNode) Read() ([]byte, error) {
 }
 
 func (node *HTTPNode) ReadContext(ctx context.Context) ([]byte, error) {
-	url, err := RemoteExists(ctx, node.URL)
+	client := secureClient(node.insecure)
+	url, err := remoteExists(ctx, node.URL, client)
 	if err != nil {
 		return nil, err
 	}
@@ -62,10 +65,14 @@ func (node *HTTPNode) ReadContext(ctx context.Context) ([]byte, error) {
 		return nil, errors.TaskfileFetchFailedError{URI: node.URL.String()}
 	}
 
-	resp, err := http.DefaultClient.Do(req.WithContext(ctx))
+	resp, err := client.Do(req.WithContext(ctx))
 	if err != nil {
 		if ctx.Err() != nil {
 			return nil, err
+		}
+		var notSecure *errors.TaskfileNotSecureError
+		if errors.As(err, &notSecure) {
+			return nil, notSecure
 		}
 		return nil, errors.TaskfileFetchFailedError{URI: node.URL.String()}
 	}
